@@ -7,7 +7,8 @@
 (*   simple-column reader (header, eager ReadInto, lazy store queries)     *)
 (* The INPUT MODEL is a token alphabet of the grammar's keywords,          *)
 (* operators, identifier and literal classes; inputs are all token strings *)
-(* up to a length, and edits (delete, duplicate, swap, replace, truncate)  *)
+(* up to a length, and edits (delete or duplicate one token or two adjacent *)
+(* tokens, swap, replace, truncate)                                        *)
 (* of seed programs / line corruptions of seed fact files.                 *)
 (***************************************************************************)
 EXTENDS Naturals, Sequences, FiniteSets, TLC, Json
@@ -18,7 +19,7 @@ Outcomes == {"value", "error", "skipped"}
 StageOK(o) == o \in Outcomes
 TokenStrings == UNION {[1..k -> Tokens] : k \in 1..MaxLen}
 Edits == {[seed |-> s, op |-> op, pos |-> p, tok |-> t] :
-            s \in 1..NSeeds, op \in {"del", "dup", "swap", "trunc"}, p \in 1..MaxPos, t \in {""}}
+            s \in 1..NSeeds, op \in {"del", "dup", "del2", "dup2", "swap", "trunc"}, p \in 1..MaxPos, t \in {""}}
          \cup {[seed |-> s, op |-> "rep", pos |-> p, tok |-> t] : s \in 1..NSeeds, p \in 1..MaxPos, t \in ReplTokens}
 ScEdits == {[seed |-> s, op |-> op, pos |-> p] :
               s \in 1..NScSeeds, p \in 1..MaxPos,
